@@ -108,6 +108,32 @@ theorem C14_timers_can_drain (c : Cfg) (n : Nat) (s : State) (hr : Reachable c n
     simp only [List.replicate_succ, run, hstep]
     exact hrun
 
+/-- The whole judged predicate (`AccountingSpec.verdict`: counters exact after every action, cap
+respected, Select hands out only backends that are up and below their cap and answers "none" only
+when there is none, counters back to zero at quiescence) holds on the model's own replay of every
+schedule, for every configuration.  The same `verdict` is applied by the driver to the real code's
+replay of the same schedule. -/
+theorem C14_model_verdict_ok (c : Cfg) (ex : Expiry) (hcf : c.countFails = (ex != .off)) (n : Nat)
+    (events : List (Nat × Nat)) :
+    AccountingSpec.verdict c ex (replay c ex (State.init c n) events) = "ok" := by
+  unfold AccountingSpec.verdict
+  have hw := wf_init c n
+  have h1 : List.replicate c.nHosts 0 = (State.init c n).timers := rfl
+  have h2 : List.replicate c.nHosts 0 = inflightList c (State.init c n) := by
+    unfold inflightList
+    apply List.ext_getElem?
+    intro i
+    rw [List.getElem?_replicate, List.getElem?_map]
+    by_cases hi : i < c.nHosts
+    · rw [List.getElem?_range hi]
+      have : forwardingTo (State.init c n) i = 0 := by unfold forwardingTo State.init; simp
+      simp [hi, this]
+    · have : (List.range c.nHosts)[i]? = none := List.getElem?_eq_none (by simp; omega)
+      simp [hi, this]
+  have := verdictGo_replay c ex hcf events _ hw
+  rw [← h2] at this
+  exact this
+
 /-! Non-vacuity and the race the repair closes (tests on concrete schedules). -/
 
 /-- test: max_conns 1, two requests select backend 0 before either has reserved it (the window the
